@@ -1002,7 +1002,7 @@ namespace BitSerializer::Convert::Utf
 			else if (mStartDataPtr != mEncodedBuffer)
 			{
 				// Squeeze buffer
-				std::memcpy(mEncodedBuffer, mStartDataPtr, mEndDataPtr - mStartDataPtr);
+				std::memmove(mEncodedBuffer, mStartDataPtr, mEndDataPtr - mStartDataPtr);
 				mEndDataPtr -= mStartDataPtr - mEncodedBuffer;
 				mStartDataPtr = mEncodedBuffer;
 			}
